@@ -319,3 +319,24 @@ Definition tables_nonempty : bool :=
 
 Definition bad_rows (chk : row -> bool) := map row_key (filter (fun r => negb (chk r)) R).
 Definition bad_classes (chk : opclass -> bool) := map oc_name (filter (fun o => negb (chk o)) op_classes).
+
+(* ------------------------------------------------------------------ printable row names (for the failing-call search of engines/c04.py) *)
+Definition cond_is (c : ex * bool) (i : nat) (m : string) (b : bool) : bool :=
+  (ex_eqb (fst c) (Meth (Meth (role i) "shape" []) m []) || ex_eqb (fst c) (Meth (role i) m [])) && Bool.eqb (snd c) b.
+
+Definition row_variant (r : row) : string :=
+  match r_conds r with
+  | [] => "none"
+  | [c] => if cond_is c 0 "is_scalar" true then "a-scalar"
+           else if cond_is c 0 "empty" true then "empty"
+           else if cond_is c 0 "empty" false then "none" else "other"
+  | [c; d] => if cond_is c 0 "is_scalar" false && cond_is d 1 "is_scalar" true then "b-scalar"
+              else if cond_is c 0 "is_scalar" false && cond_is d 1 "is_scalar" false then "none" else "other"
+  | _ => "other"
+  end.
+
+Definition row_tag (r : row) : string :=
+  String.concat " " [f_ns (r_fn r); f_name (r_fn r); String.concat "," (types (f_params (r_fn r))); row_variant r;
+                     match row_op r with Some c => c | None => "-" end].
+
+Definition bad_tags (chk : row -> bool) : list string := map row_tag (filter (fun r => negb (chk r)) R).
